@@ -4,23 +4,23 @@ package main
 func propTiers(id string) (tierConf, tierConf) {
 	switch id {
 	case "C18":
-		return tierConf{Runs: 20000, BudgetS: 60, ShrinkS: 60, DetRuns: 24}, tierConf{Runs: 3_000_000, BudgetS: 900, ShrinkS: 180, DetRuns: 100}
+		return tierConf{Runs: 36000, BudgetS: 60, ShrinkS: 60, DetRuns: 24}, tierConf{Runs: 3_000_000, BudgetS: 900, ShrinkS: 180, DetRuns: 100}
 	case "C20":
 		return tierConf{Runs: 24000, BudgetS: 60, ShrinkS: 40, DetRuns: 24}, tierConf{Runs: 1_000_000, BudgetS: 900, ShrinkS: 120, DetRuns: 100}
 	case "C02":
-		return tierConf{Runs: 30000, BudgetS: 60, ShrinkS: 60, DetRuns: 24}, tierConf{Runs: 5_000_000, BudgetS: 900, ShrinkS: 180, DetRuns: 100}
+		return tierConf{Runs: 50000, BudgetS: 60, ShrinkS: 60, DetRuns: 24}, tierConf{Runs: 5_000_000, BudgetS: 900, ShrinkS: 180, DetRuns: 100}
 	case "C14":
 		return tierConf{Runs: 30000, BudgetS: 75, ShrinkS: 30, DetRuns: 32}, tierConf{Runs: 2_000_000, BudgetS: 900, ShrinkS: 120, DetRuns: 200}
 	case "C15":
-		return tierConf{Runs: 400000, BudgetS: 60, ShrinkS: 30, DetRuns: 32}, tierConf{Runs: 20_000_000, BudgetS: 900, ShrinkS: 120, DetRuns: 200}
+		return tierConf{Runs: 800000, BudgetS: 60, ShrinkS: 30, DetRuns: 32}, tierConf{Runs: 20_000_000, BudgetS: 900, ShrinkS: 120, DetRuns: 200}
 	case "C16":
-		return tierConf{Runs: 40000, BudgetS: 60, ShrinkS: 30, DetRuns: 32}, tierConf{Runs: 5_000_000, BudgetS: 900, ShrinkS: 120, DetRuns: 200}
+		return tierConf{Runs: 120000, BudgetS: 60, ShrinkS: 30, DetRuns: 32}, tierConf{Runs: 5_000_000, BudgetS: 900, ShrinkS: 120, DetRuns: 200}
 	case "C17":
-		return tierConf{Runs: 100000, BudgetS: 60, ShrinkS: 30, DetRuns: 24}, tierConf{Runs: 1_000_000, BudgetS: 900, ShrinkS: 120, DetRuns: 100}
+		return tierConf{Runs: 160000, BudgetS: 60, ShrinkS: 30, DetRuns: 24}, tierConf{Runs: 4_000_000, BudgetS: 900, ShrinkS: 120, DetRuns: 100}
 	case "C03":
-		return tierConf{Runs: 40000, BudgetS: 60, ShrinkS: 30, DetRuns: 32}, tierConf{Runs: 3_000_000, BudgetS: 900, ShrinkS: 120, DetRuns: 200}
+		return tierConf{Runs: 70000, BudgetS: 60, ShrinkS: 30, DetRuns: 32}, tierConf{Runs: 3_000_000, BudgetS: 900, ShrinkS: 120, DetRuns: 200}
 	case "C01":
-		return tierConf{Runs: 40000, BudgetS: 60, ShrinkS: 30, DetRuns: 32}, tierConf{Runs: 5_000_000, BudgetS: 900, ShrinkS: 120, DetRuns: 200}
+		return tierConf{Runs: 50000, BudgetS: 60, ShrinkS: 30, DetRuns: 32}, tierConf{Runs: 5_000_000, BudgetS: 900, ShrinkS: 120, DetRuns: 200}
 	}
 	return tierConf{Runs: 4000, BudgetS: 60, ShrinkS: 30, DetRuns: 32}, tierConf{Runs: 1_000_000, BudgetS: 900, ShrinkS: 120, DetRuns: 200}
 }
